@@ -22,6 +22,12 @@ fn gen_def(rng: &mut Rng, with_prefix: bool, with_steps: bool) -> Definition {
         ties: false,
     };
     let mut def = gen_definition(rng, &spec);
+    // a continuation template with EMPTY content (what the Tokenizers converter emits for
+    // `continuing_subword_prefix: ""`): "no prefix" for the decoder, i.e. the direct path
+    if rng.chance(1, 6) {
+        def.config.templates.retain(|t| t.position != InsertionPosition::WordContinuation);
+        def.config.templates.push(Template { content: String::new(), position: InsertionPosition::WordContinuation });
+    }
     // specials: control, priority; one of them may share its id with a vocabulary entry
     let vocab_ids: Vec<u32> = def.model.vocab().iter().map(|t| t.id).collect();
     let mut next = 9_000_000u32;
